@@ -403,16 +403,26 @@ func (cfg *Config) perElemOps(pe *syntax.ParamExp, elems []string) ([]string, er
 
 // replaceElems applies a ${var/pattern/repl} replacement to each element.
 func (cfg *Config) replaceElems(repl *syntax.Replace, elems []string) ([]string, error) {
-	orig, err := Pattern(cfg, repl.Orig)
+	anchor, origWord := anchoredPattern(repl.Orig)
+	orig, err := Pattern(cfg, origWord)
 	if err != nil {
 		return nil, err
 	}
-	if orig == "" {
+	if orig == "" && anchor == 0 {
 		return elems, nil // nothing to replace
 	}
 	with, err := Literal(cfg, repl.With)
 	if err != nil {
 		return nil, err
+	}
+	if anchor != 0 {
+		// ${var/#pattern/repl} and ${var/%pattern/repl} only replace a match at
+		// the start or at the end of each element; the longest one, like ## and %%.
+		out := make([]string, len(elems))
+		for i, elem := range elems {
+			out[i] = replaceAnchored(orig, with, elem, anchor == '%')
+		}
+		return out, nil
 	}
 	n := 1
 	if repl.All {
@@ -432,6 +442,46 @@ func (cfg *Config) replaceElems(repl *syntax.Replace, elems []string) ([]string,
 		out[i] = sb.String()
 	}
 	return out, nil
+}
+
+// anchoredPattern reports whether the pattern word of a replacement begins with an
+// unquoted '#' or '%', which anchor the match to the start or the end of the value,
+// and returns the pattern word without that character.
+func anchoredPattern(word *syntax.Word) (anchor byte, _ *syntax.Word) {
+	if word == nil || len(word.Parts) == 0 {
+		return 0, word
+	}
+	lit, ok := word.Parts[0].(*syntax.Lit)
+	if !ok || lit.Value == "" || (lit.Value[0] != '#' && lit.Value[0] != '%') {
+		return 0, word
+	}
+	rest := *lit
+	rest.Value = lit.Value[1:]
+	parts := append([]syntax.WordPart{&rest}, word.Parts[1:]...)
+	return lit.Value[0], &syntax.Word{Parts: parts}
+}
+
+func replaceAnchored(pat, with, elem string, atEnd bool) string {
+	if pat == "" { // ${var/#/prefix} and ${var/%/suffix}
+		if atEnd {
+			return elem + with
+		}
+		return with + elem
+	}
+	expr, err := pattern.Regexp(pat, 0)
+	if err != nil {
+		return elem
+	}
+	if atEnd {
+		expr = "(" + expr + ")$" // the leftmost match that reaches the end is the longest suffix
+	} else {
+		expr = "^(" + expr + ")"
+	}
+	loc := regexp.MustCompile(expr).FindStringIndex(elem)
+	if loc == nil {
+		return elem
+	}
+	return elem[:loc[0]] + with + elem[loc[1]:]
 }
 
 // removePatternElems applies a pattern removal operator to each element.
